@@ -127,6 +127,7 @@ func c10(r *core.Report) {
 	crashHash(r, cs, 10)
 	crashBound(r, cs, 3)
 	crashIfaceNil(r, cs, 1)
+	crashNilMap(r, cs, 100)
 	crashRec(r, cs, nil, nil)
 	crashNil(r, cs)
 }
@@ -927,14 +928,9 @@ func libLenFact(info *types.Info, ff *core.FuncFacts, base ast.Expr, need int) s
 				}
 			}
 		}
-		if a.RangeOf != nil && !a.IsKey && need <= 1 {
-			if t := info.TypeOf(a.RangeOf); t != nil {
-				if s := t.String(); s == "net/url.Values" || s == "net/http.Header" {
-					okA = true
-					why = "value list of a " + s + " entry: net/url.ParseQuery and Header.Add never store an empty list (a hand-built map is the caller's precondition)"
-				}
-			}
-		}
+		// (no fact for the value lists of url.Values / http.Header: ParseQuery and Header.Add never store
+		// an empty list, but RequestValidationInput.QueryParams is the caller's to build — every site in
+		// the tree tests the length)
 		if a.RangeOf != nil && !a.IsKey {
 			// element of FindAllStringSubmatch(...) of a constant pattern
 			if rid, ok := ast.Unparen(a.RangeOf).(*ast.Ident); ok {
